@@ -73,6 +73,10 @@ class Bounded:
         self.only_when_undecided = only_when_undecided
         self.known_inputs = known_inputs  # callable(violation dict) -> dict of named inputs for known-finding classes
         self.post = post  # callable(native output) -> native output with "violations" filled in (driver-side oracle)
+        # an always-on bounded part that exercises the WHOLE statement (not one sentence of it): when the deductive
+        # part is undecided on a tree (a construct outside the subset after a refactoring) and this part finds
+        # nothing, the run ends like a fallback run - exit 0, level exploration, no proof claimed
+        self.stands_in = False
 
 
 class Property:
@@ -386,8 +390,13 @@ def run_check(mod, prop, tier, seed, a, t0):
             continue
         if b.post is not None:
             o = b.post(o)
-        if b.only_when_undecided:
-            fallback_used = True
+        if b.only_when_undecided or getattr(b, "stands_in", False) or prop.level == "exploration":
+            # (a property claimed at level exploration is decided by its bounded parts in the first place)
+            # a stand-in may be limited to the tasks it can answer for (covers_tasks: task-name prefixes): it excuses
+            # the run only when every undecided obligation belongs to one of them
+            cov = getattr(b, "covers_tasks", None)
+            if cov is None or all(str(u.get("task", "")).startswith(tuple(cov)) for u in unknown):
+                fallback_used = True
         kn = list(o.get("known", []))
         viols = []
         for v in o.get("violations", []):
